@@ -76,7 +76,8 @@ Theorem C09_read_to_end :
   read_all maxc fuel acc r w = Ok (0, acc', r') w' -> acc' = acc ++ K (abs (rsp r)) (remaining w).
 Proof. exact read_all_complete. Qed.
 
-(* a handler that only reads (read / read_to_end / fill_buf+consume in any mix, any buffer sizes): the bytes it
+(* a handler that only reads (read / read_to_end / fill_buf+consume in any mix, any buffer sizes; also a read that is
+   polled once and dropped, op 11: rd_only / obs_of admit it, observations OPoll / OPollErr / OPollPending): the bytes it
    observes, in order, are exactly a prefix of the stream content, and what it has not seen is still to come *)
 Theorem C09_handler_reads :
   forall (maxc : N) (script : list N) (f : nat) (r : rstate) (w : world),
